@@ -19,6 +19,12 @@ operation, so in both cases control continues at the fence behind the try/catch 
 throwing path is the same sequence of program points `wFence, wDoneInc, wBusyDec, wRelock,
 wNotify`, entered with the note `job!id` instead of `job-id` and recorded in the ghost
 list `thrown`.  Ids are given in push order.
+The destruction of the job object ("destroy job by closing scope", after the try/catch and before
+the fence) is a program point of its own: the calls of `cfg.dprog code` — what the destructor of the
+closure of a job with that code does (enqueue a continuation, read `done()`/`idle()`) — are executed
+by the worker after the body, still inside the busy section and without the mutex; the note `job~id`
+and the ghost list `destroyed` mark its end.  Jobs still queued when `~ThreadPool` destroys the
+queue are recorded in `dropped`.
 `cfg.initYields`: scheduling points inside the `init_thread` callback a worker runs before
 it first takes the mutex (`wInit`): a worker that is neither idle nor busy.
 
@@ -106,6 +112,8 @@ structure Cfg where
   /-- number of scheduling points (yields) inside the `init_thread` callback; 0 = none / no callback -/
   initYields : Nat := 0
   prog : Nat → List Act
+  /-- what the destructor of the closure of a job with this code does (enqueue a continuation, read observers) -/
+  dprog : Nat → List Act := fun _ => []
   clients : List (List Act)
   mainCalls : List Act
 
@@ -126,6 +134,11 @@ structure State where
   finished : List Nat := []
   /-- ghost: ids of the jobs whose body ended by throwing (they are in `finished` as well) -/
   thrown : List Nat := []
+  /-- ghost: ids of the jobs whose closure was destroyed by the worker that ran them (the "destroy job by
+      closing scope" point of `ThreadPool::worker`, after the body, before the fence / `++done_` / `--busy_`) -/
+  destroyed : List Nat := []
+  /-- ghost: ids of the jobs still queued when `~ThreadPool` destroyed the queue (never run) -/
+  dropped : List Nat := []
   deriving Repr
 
 def init (cfg : Cfg) : State :=
@@ -146,11 +159,24 @@ def fullScript (cfg : Cfg) (th : Thread) : List Act :=
     | some j => cfg.prog j.code
     | none => []
 
-/-- the calls a thread really executes: everything before the first `throw` -/
-def script (cfg : Cfg) (th : Thread) : List Act := (fullScript cfg th).takeWhile (· != .throw)
+/-- the calls of the body a thread really executes: everything before the first `throw` -/
+def bodyScript (cfg : Cfg) (th : Thread) : List Act := (fullScript cfg th).takeWhile (· != .throw)
+
+/-- the calls made by the destructor of the closure of the job a worker is executing -/
+def dtorScript (cfg : Cfg) (th : Thread) : List Act :=
+  match th.role, th.job with
+  | .worker, some j => (cfg.dprog j.code).takeWhile (· != .throw)
+  | _, _ => []
+
+/-- everything a thread executes between two of its own program points: for a worker running a job the body
+    `try { job(); } catch …` followed by the destruction of the job object ("closing scope") -/
+def script (cfg : Cfg) (th : Thread) : List Act := bodyScript cfg th ++ dtorScript cfg th
 
 /-- the body ends by throwing -/
-def throws (cfg : Cfg) (th : Thread) : Bool := (script cfg th).length < (fullScript cfg th).length
+def throws (cfg : Cfg) (th : Thread) : Bool := (bodyScript cfg th).length < (fullScript cfg th).length
+
+/-- the job body ends right before call index `k'` of the script (the destructor's calls follow) -/
+def bodyEnds (cfg : Cfg) (th : Thread) (k' : Nat) : Bool := th.role == .worker && k' == (bodyScript cfg th).length
 
 def pcOf (s : State) (t : Nat) : Pc := (s.thr[t]?.map (·.pc)).getD .finished
 
@@ -228,42 +254,55 @@ def endOfScript (cfg : Cfg) (th : Thread) : Thread :=
   match th.role with
   | .main => { th with pc := mainJoinPc cfg }
   | .client _ => { th with pc := .finished }
-  | .worker => { th with pc := .wFence }      -- the job body returns: job object destroyed, then the fence
+  | .worker => { th with pc := .wFence }      -- job object destroyed (closing scope), then the fence
 
 def endOfScriptEv (cfg : Cfg) (t : Nat) (th : Thread) : List String :=
   match th.role with
   | .main => mainJoinEv cfg t
   | .client _ => []
-  | .worker => [ev t (if throws cfg th then s!"job!{jobId th}" else s!"job-{jobId th}")]
+  | .worker => [ev t s!"job~{jobId th}"]      -- the closure has been destroyed
+
+/-- ghost: the job object is destroyed at the end of the worker's script -/
+def endOfScriptDes (s : State) (th : Thread) : List Nat :=
+  match th.role with
+  | .worker => s.destroyed ++ [jobId th]
+  | _ => s.destroyed
+
+/-- ghost: a job body that returns (or throws) before call `k'` is recorded as finished -/
+def bodyEndFin (cfg : Cfg) (s : State) (th : Thread) (k' : Nat) : List Nat :=
+  if bodyEnds cfg th k' then s.finished ++ [jobId th] else s.finished
 
 /-- ghost: jobs whose body threw -/
-def endOfScriptThrown (cfg : Cfg) (s : State) (th : Thread) : List Nat :=
-  match th.role with
-  | .worker => if throws cfg th then s.thrown ++ [jobId th] else s.thrown
-  | _ => s.thrown
+def bodyEndThrown (cfg : Cfg) (s : State) (th : Thread) (k' : Nat) : List Nat :=
+  if bodyEnds cfg th k' && throws cfg th then s.thrown ++ [jobId th] else s.thrown
 
-/-- ghost: a job body that returns (or throws) is recorded as finished -/
-def endOfScriptFin (s : State) (th : Thread) : List Nat :=
-  match th.role with
-  | .worker => s.finished ++ [jobId th]
-  | _ => s.finished
+def bodyEndEv (cfg : Cfg) (t : Nat) (th : Thread) (k' : Nat) : List String :=
+  if bodyEnds cfg th k' then [ev t (if throws cfg th then s!"job!{jobId th}" else s!"job-{jobId th}")] else []
 
 /-- what follows the return of call `k` of the thread's script -/
 def afterCall (cfg : Cfg) (s : State) (t : Nat) (th : Thread) (k : Nat) : State :=
-  if k + 1 < (script cfg th).length then setThr s t { th with pc := .call (k + 1) .lock }
-  else { setThr s t (endOfScript cfg th) with finished := endOfScriptFin s th, thrown := endOfScriptThrown cfg s th }
+  if k + 1 < (script cfg th).length then
+    { setThr s t { th with pc := .call (k + 1) .lock } with
+        finished := bodyEndFin cfg s th (k + 1), thrown := bodyEndThrown cfg s th (k + 1) }
+  else
+    { setThr s t (endOfScript cfg th) with
+        finished := bodyEndFin cfg s th (k + 1), thrown := bodyEndThrown cfg s th (k + 1),
+        destroyed := endOfScriptDes s th }
 
 def afterCallEv (cfg : Cfg) (t : Nat) (th : Thread) (k : Nat) : List String :=
-  if k + 1 < (script cfg th).length then [] else endOfScriptEv cfg t th
+  bodyEndEv cfg t th (k + 1) ++ (if k + 1 < (script cfg th).length then [] else endOfScriptEv cfg t th)
 
 /-- beginning of a script (client start, job body start) -/
 def beginScript (cfg : Cfg) (s : State) (t : Nat) (th : Thread) : State :=
   if (script cfg th).isEmpty then
-    { setThr s t (endOfScript cfg th) with finished := endOfScriptFin s th, thrown := endOfScriptThrown cfg s th }
-  else setThr s t { th with pc := .call 0 .lock }
+    { setThr s t (endOfScript cfg th) with
+        finished := bodyEndFin cfg s th 0, thrown := bodyEndThrown cfg s th 0, destroyed := endOfScriptDes s th }
+  else
+    { setThr s t { th with pc := .call 0 .lock } with
+        finished := bodyEndFin cfg s th 0, thrown := bodyEndThrown cfg s th 0 }
 
 def beginScriptEv (cfg : Cfg) (t : Nat) (th : Thread) : List String :=
-  if (script cfg th).isEmpty then endOfScriptEv cfg t th else []
+  bodyEndEv cfg t th 0 ++ (if (script cfg th).isEmpty then endOfScriptEv cfg t th else [])
 
 /-- state after the mutex was (re-)acquired inside loop_until_empty / loop_until_terminate:
     evaluation of the wait predicate up to its first atomic load -/
@@ -317,7 +356,10 @@ def step (cfg : Cfg) (s : State) (t : Nat) (c : Nat) : Option (StepOut State) :=
   | .mDJoin i =>
     if pcOf s (workerTid i) == .finished then
       if i + 1 < cfg.nworkers then out (setThr s t { th with pc := .mDJoin (i + 1) }) [ev t s!"join({workerTid i})"]
-      else out (setThr s t { th with pc := .finished }) [ev t s!"join({workerTid i})", ev t "end"]
+      else
+        -- the members are destroyed: the closures of the jobs still in the queue go with it
+        out { setThr s t { th with pc := .finished } with dropped := s.dropped ++ s.queue.map (·.id) }
+            ([ev t s!"join({workerTid i})"] ++ s.queue.map (fun j => ev t s!"job~{j.id}") ++ [ev t "end"])
     else none
   -- ------------------------------------------------------------ worker
   | .wInit j => out (setThr s t { th with pc := if j ≤ 1 then .wLock else .wInit (j - 1) }) [ev t "yield"]
